@@ -2,12 +2,14 @@
 from ._hist import hist_streams
 
 ID = 'C01'
-RULE = ('Histories of 1-32 public mutator calls (random, weighted; plus every 1-step history — thorough: every 2-step '
-        'history over a reduced alphabet — over 4 tasks / 2 WBSs from 5 seed shapes), legal and illegal arguments, '
-        'executed on real objects; after EVERY step (returned or raised) the forest / symmetry / acyclicity / '
-        'no-ancestor-link invariants are recomputed from public getters.  Non-trivial = history with >=1 hierarchy '
-        'edit and >=1 dependency edit on a graph with >=3 attached tasks and >=1 call whose argument is illegal by the '
-        'reference model; distinct = distinct (universe, op list).')
+RULE = ('Histories of 1-40 public mutator calls (random, weighted, with a structure-building prefix), legal and illegal '
+        'arguments, executed on real objects; plus the small scope: EVERY 1-step history over the full small alphabet '
+        '(2 252 calls over 4 tasks / 2 WBSs) and every 2-step history over a tiny alphabet (116 calls) from 10 seed shapes '
+        '(thorough: also every 2-step history mixing the reduced alphabet with the tiny one, both orders).  After EVERY '
+        'step (returned or raised) the forest / symmetry / acyclicity / no-ancestor-link invariants are recomputed from '
+        'public getters.  Non-trivial = history with >=1 hierarchy edit and >=1 dependency edit on a graph with >=3 '
+        'attached tasks and >=1 call whose argument is illegal by the reference model; distinct = distinct (universe, '
+        'op list).')
 ASSUMPTIONS = ['invariant checker and reference model in vf/graph.py are correct',
                'a history is cut at the first violation of any history property (state is polluted)']
 
